@@ -153,7 +153,9 @@ def h_corpus(env):
 
 # pairs of field names that are close to each other; the first of each pair maps back from every key to_dict emits for it
 # (the second may lie in the known region `camelCase key loses a word boundary`, and only its proto name is checked)
-PAIRS = [("address_line1", "address_line_1"), ("ipv4", "ipv_4"), ("x1", "x_1"), ("field1_name", "field_1_name"), ("ab", "a_b"), ("foo_bar", "foo__bar"), ("xyz", "x_yz")]
+PAIRS = [("address_line1", "address_line_1"), ("ipv4", "ipv_4"), ("x1", "x_1"), ("field1_name", "field_1_name"), ("ab", "a_b"), ("foo_bar", "foo__bar"), ("xyz", "x_yz"),
+         # proto identifiers may start with underscores: the proto name itself, and the digit-leading keys to_dict emits for `_<digit>...`, are keys from_dict has to accept
+         ("_id", "id2"), ("_2fa_code", "_2fa"), ("_1a", "_1"), ("__meta", "_meta_x")]
 
 
 def h_two_classes(env):
